@@ -241,7 +241,12 @@ def run_statement(case, ctx: Ctx) -> None:
         fcur = fs.connect("db1", "s1").cursor()
         for s_ in setup:
             fcur.execute(s_)
-            hcur.execute(s_)
+            try:
+                hcur.execute(s_)
+            except Exception as e:
+                # the login asked for an isolated instance, so the setup cannot collide with anything: the server differs
+                ctx.fail(f"C17|statement|setup-fails-only-over-http|{etype_name(e)}", f"{s_[:200]}: {str(e)[:300]}")
+                return
         ctx.cls(f"stmt:{kind}")
         ctx.nontrivial = not sql.lstrip().upper().startswith("SELECT") or group == "failing"
         fo = run(fcur, sql)
@@ -292,7 +297,7 @@ def run_statement(case, ctx: Ctx) -> None:
 # ------------------------------------------------------------------------------------------ sessions and tokens
 
 _sess_op = st.one_of(
-    st.tuples(st.just("login"), st.sampled_from(["shared", "shared", "isolated"]), st.sampled_from(["db1", "db2"]), st.sampled_from(["s1", "s2"])).map(list),
+    st.tuples(st.just("login"), st.sampled_from(["shared", "isolated"]), st.sampled_from(["db1", "db2"]), st.sampled_from(["s1", "s2"])).map(list),
     st.tuples(st.just("create"), st.integers(0, 3), st.sampled_from(["TA", "TB"])).map(list),
     st.tuples(st.just("list"), st.integers(0, 3)).map(list),
     st.tuples(st.just("use"), st.integers(0, 3), st.sampled_from(["s1", "s2"])).map(list),
